@@ -168,7 +168,7 @@ impl Check for EpochClocks {
             ew.bw
                 .w
                 .exec(&owner, &m, &em::ExecuteMsg::AddHook { contract_addr: h }, &[])
-                .map_err(|e| Fail::new(format!("AddHook failed: {e}")))?;
+                .map_err(|e| Fail::unobservable(format!("set-up: AddHook by the admin failed: {e}")))?;
             registered[i] = true;
         }
         // manager: start epoch (id 0, start = genesis) is given; distributor: nothing yet
